@@ -480,14 +480,18 @@ def run(ctx):
         iv_ = lp.target.elts[0].id
         nsi = 0
         for st in lp.body:
-            if isinstance(st, ast.Assign) and isinstance(st.value, ast.Subscript) and isinstance(st.value.value, ast.Name) and iv_ in [x.id for x in ast.walk(st.value.slice) if isinstance(x, ast.Name)]:
+            if not isinstance(st, ast.Assign):
+                continue
+            # plain `x = L[vi]` and the tuple form `a, b = (L[vi], M[vi])`
+            for sub in [x for x in ast.walk(st.value) if isinstance(x, ast.Subscript) and isinstance(x.value, ast.Name) and isinstance(x.ctx, ast.Load)
+                        and iv_ in [y.id for y in ast.walk(x.slice) if isinstance(y, ast.Name)]]:
                 nsi += 1
-                if norm(st.value.slice) == iv_:
-                    ctx.ok('R-SAMEINDEX', norm(st)[:30], 'src/PseudoNetCDF/%s ffi1001.__init__' % RP, 'indexed with %s' % iv_)
+                if norm(sub.slice) == iv_:
+                    ctx.ok('R-SAMEINDEX', norm(sub)[:30], 'src/PseudoNetCDF/%s ffi1001.__init__' % RP, 'indexed with %s' % iv_)
                 else:
                     ctx.violation(Finding('R-SAMEINDEX', RP, 'ffi1001.__init__', st, '%s is read at %s while the other per-variable lists are read at %s: from the second dependent variable on each variable '
                                           'gets the entry of its predecessor (a missing code that is not its own, so its missing samples come back as data)' % (
-                                              norm(st.value.value), norm(st.value.slice), iv_)))
+                                              norm(sub.value), norm(sub.slice), iv_)))
         ctx.floor('per-variable lists read in the variable loop', nsi, 4)
     # ---- R-LODSYM: the lower- and upper-limit-of-detection blocks of the reader use only their own names
     ctx.rule('R-LODSYM', 'reader: statements that build llod_* use no ulod_* name and vice versa (copy-paste symmetry)')
